@@ -123,6 +123,7 @@ def ra13_str_len(u, key, text):
     return text
 
 
+from vlib import rules
 LEX_RULES = [ra11_lines_loop, ra12_chars_count, ra13_str_len]
-LEX_LINE_RULES = [ra5_char_peek_iter, ra6_by_value_patterns, str_patterns, ra9_hoist_for_temporary, ra8_char_to_string,
+LEX_LINE_RULES = [rules.r26_map_or_match, ra5_char_peek_iter, ra6_by_value_patterns, str_patterns, ra9_hoist_for_temporary, ra8_char_to_string,
                   ra10_parse_u128]
